@@ -333,6 +333,9 @@ fn u2_toggles(players: GatherToggle, rules: GatherToggle, po: u8, ro: u8) {
             ustr(&mut m, "v");
             world().push_data(m.v);
             world().push_timeout(); // the greedy follow-up receive
+        } else if ro == 2 {
+            // malformed: a reply of the players kind to the rules request
+            world().push_data(vec![0x80, 0, 0, 0, 2]);
         } else {
             world().push_timeout();
         }
@@ -346,6 +349,12 @@ fn u2_toggles(players: GatherToggle, rules: GatherToggle, po: u8, ro: u8) {
             p.le32(30).le32(7).le32(0);
             world().push_data(p.v);
             world().push_timeout();
+        } else if po == 2 {
+            // malformed: an unknown packet kind byte in the header
+            world().push_data(vec![0x80, 0, 0, 0, 9, 1, 2, 3]);
+        } else if po == 3 {
+            // malformed: a datagram shorter than the 5-byte header
+            world().push_data(vec![0x80, 0, 0]);
         } else {
             world().push_timeout();
         }
@@ -355,9 +364,11 @@ fn u2_toggles(players: GatherToggle, rules: GatherToggle, po: u8, ro: u8) {
         mutators_and_rules: rules,
     };
     let r = unreal2::query(&addr, &gs, None);
+    let players_failed = po != 0;
+    let aborted_at_players = players_requested && players == GatherToggle::Enforce && players_failed;
     match &r {
         Ok(x) => {
-            assert!(!aborted_at_rules);
+            assert!(!aborted_at_rules && !aborted_at_players);
             assert!(x.server_info.num_players == np && x.server_info.max_players == mp);
             // a skipped or failed section is absent (empty), a gathered one present
             let want_rules = rules_requested && !rules_failed;
@@ -366,8 +377,15 @@ fn u2_toggles(players: GatherToggle, rules: GatherToggle, po: u8, ro: u8) {
             assert!(x.players.players.len() == if want_players { 1 } else { 0 });
         }
         Err(e) => {
-            assert!(aborted_at_rules);
-            assert!(e.kind == K::PacketReceive);
+            assert!(aborted_at_rules || aborted_at_players);
+            // the failure's own kind: silence is a receive error, a malformed reply a bad /
+            // short packet
+            let o = if aborted_at_rules { ro } else { po };
+            match o {
+                1 => assert!(e.kind == K::PacketReceive),
+                3 => assert!(e.kind == K::PacketUnderflow),
+                _ => assert!(e.kind == K::PacketBad),
+            }
         }
     }
     // a skipped section is never requested; requests appear in order
@@ -401,6 +419,12 @@ c11_u2!(c11_unreal2_skip_enforce_valid, Skip, Enforce, 0, 0);
 c11_u2!(c11_unreal2_enforce_skip_valid, Enforce, Skip, 0, 0);
 c11_u2!(c11_unreal2_try_enforce_silent_rules, Try, Enforce, 0, 1);
 c11_u2!(c11_unreal2_try_try_silent_players, Try, Try, 1, 0);
+c11_u2!(c11_unreal2_enforce_skip_players_wrong_kind, Enforce, Skip, 2, 0);
+c11_u2!(c11_unreal2_enforce_skip_players_short, Enforce, Skip, 3, 0);
+c11_u2!(c11_unreal2_skip_enforce_rules_wrong_kind, Skip, Enforce, 0, 2);
+c11_u2!(c11_t_unreal2_try_skip_players_wrong_kind, Try, Skip, 2, 0);
+c11_u2!(c11_t_unreal2_skip_try_rules_wrong_kind, Skip, Try, 0, 2);
+c11_u2!(c11_t_unreal2_enforce_skip_players_silent, Enforce, Skip, 1, 0);
 c11_u2!(c11_t_unreal2_skip_skip, Skip, Skip, 0, 0);
 c11_u2!(c11_t_unreal2_try_try_valid, Try, Try, 0, 0);
 c11_u2!(c11_t_unreal2_enforce_try_silent_rules, Enforce, Try, 0, 1);
